@@ -185,7 +185,7 @@ pub fn run_one<W: World>(cfg: &W::Cfg, prefix: &[u8], trace: bool) -> Result<Exe
     let prefix = prefix.to_vec();
     let prefix_copy = prefix.clone();
     let (tx, rx) = std::sync::mpsc::channel();
-    std::thread::Builder::new()
+    let handle = std::thread::Builder::new()
         .stack_size(stack_bytes())
         .spawn(move || {
             let r = std::panic::catch_unwind(std::panic::AssertUnwindSafe(|| run_in_runtime::<W>(&cfg, &prefix, trace)));
@@ -206,22 +206,53 @@ pub fn run_one<W: World>(cfg: &W::Cfg, prefix: &[u8], trace: bool) -> Result<Exe
         })
         .map_err(|e| format!("spawn: {}", e))?;
     // Watchdog: a subject that spins inside a single poll never hands control back to the step
-    // horizon. The execution thread is abandoned (it cannot be killed) and the execution is
-    // reported as a termination violation.
-    let limit = std::env::var("VERIF_EXEC_TIMEOUT_S").ok().and_then(|s| s.parse::<u64>().ok()).unwrap_or(30);
-    match rx.recv_timeout(std::time::Duration::from_secs(limit)) {
-        Ok(r) => r,
-        Err(std::sync::mpsc::RecvTimeoutError::Timeout) => {
-            let mut rec = ExecRecord::default();
-            rec.choices = prefix_copy.clone();
-            rec.nenabled = vec![1; prefix_copy.len()];
-            rec.outcome.violations.push((
-                "execution did not return: the subject spins inside one poll (livelock)".to_string(),
-                format!("no result within {} s; schedule prefix {:?}", limit, prefix_copy),
-            ));
-            Ok(rec)
+    // horizon. It is recognised by the CPU time the execution thread has burnt (not by wall time:
+    // on a loaded machine a healthy execution may simply not have been scheduled). The thread is
+    // then abandoned (it cannot be killed) and the execution reported as a termination violation.
+    let limit = std::env::var("VERIF_EXEC_TIMEOUT_S").ok().and_then(|s| s.parse::<u64>().ok()).unwrap_or(5);
+    let cpu_of = |h: &std::thread::JoinHandle<()>| -> Option<f64> {
+        use std::os::unix::thread::JoinHandleExt;
+        let mut clk: libc::clockid_t = 0;
+        // SAFETY: the handle refers to a thread that has not been joined or detached
+        let rc = unsafe { libc::pthread_getcpuclockid(h.as_pthread_t(), &mut clk) };
+        if rc != 0 {
+            return None;
         }
-        Err(std::sync::mpsc::RecvTimeoutError::Disconnected) => Err("execution thread died".to_string()),
+        let mut ts = libc::timespec { tv_sec: 0, tv_nsec: 0 };
+        // SAFETY: plain out-parameter call
+        let rc = unsafe { libc::clock_gettime(clk, &mut ts) };
+        if rc != 0 {
+            return None;
+        }
+        Some(ts.tv_sec as f64 + ts.tv_nsec as f64 * 1e-9)
+    };
+    let started = std::time::Instant::now();
+    loop {
+        match rx.recv_timeout(std::time::Duration::from_secs(2)) {
+            Ok(r) => return r,
+            Err(std::sync::mpsc::RecvTimeoutError::Disconnected) => return Err("execution thread died".to_string()),
+            Err(std::sync::mpsc::RecvTimeoutError::Timeout) => {
+                let cpu = cpu_of(&handle);
+                let spinning = match cpu {
+                    Some(c) => c >= limit as f64,
+                    // no CPU clock: fall back to a generous wall limit
+                    None => started.elapsed().as_secs() >= limit * 10,
+                };
+                if spinning {
+                    let mut rec = ExecRecord::default();
+                    rec.choices = prefix_copy.clone();
+                    rec.nenabled = vec![1; prefix_copy.len()];
+                    rec.outcome.violations.push((
+                        "execution did not return: the subject spins inside one poll (livelock)".to_string(),
+                        format!("no result after {:.0} s of CPU time of the execution thread ({} s wall); schedule prefix {:?}", cpu.unwrap_or(-1.0), started.elapsed().as_secs(), prefix_copy),
+                    ));
+                    return Ok(rec);
+                }
+                if started.elapsed().as_secs() >= limit * 40 {
+                    return Err(format!("execution neither returned nor burnt CPU for {} s (machine stalled?)", started.elapsed().as_secs()));
+                }
+            }
+        }
     }
 }
 
